@@ -334,6 +334,83 @@ theorem register_log {cfg : Config} {w : World} {a : AsmDoc} {e : Event} (h : e 
             exact ⟨h, hg.2, hnb', hg.1, hpre⟩
       · simp at h
 
+/-- Dynamically registered credentials come from a registration request answered in THIS call: the
+request is in the log of `register` and the world answered it with a client id. -/
+theorem register_dcr {cfg : Config} {w : World} {a : AsmDoc} {probe : Bool}
+    (h : (register cfg w a).1 = .ok .dcr probe) :
+    Event.register a.registrationEndpoint ∈ (register cfg w a).2 ∧ cfg.dcr = true ∧
+    ∃ urls, w.reg a.registrationEndpoint = .created true urls := by
+  unfold register at h ⊢
+  by_cases hc : (cfg.cimd && a.cimdSupported) = true
+  · simp [hc] at h
+  · rw [if_neg hc] at h ⊢
+    cases hpre : cfg.pre with
+    | some pi =>
+      rw [hpre] at h
+      simp only at h
+      split at h <;> simp at h
+    | none =>
+      rw [hpre] at h
+      simp only at h ⊢
+      by_cases hg : (cfg.dcr && a.registrationEndpoint != .empty) = true
+      · rw [if_pos hg] at h ⊢
+        simp only [Bool.and_eq_true] at hg
+        generalize a.registrationEndpoint = r at h hg ⊢
+        cases r with
+        | bad n => simp at h
+        | empty =>
+          simp only at h ⊢
+          cases hreg : w.reg .empty with
+          | fail => simp [hreg] at h
+          | created b urls =>
+            cases b
+            · simp [hreg] at h
+            · exact ⟨by simp, hg.1, urls, rfl⟩
+        | «at» o s k ds =>
+          simp only at h ⊢
+          cases hreg : w.reg (.at o s k ds) with
+          | fail => simp [hreg] at h
+          | created b urls =>
+            cases b
+            · simp [hreg] at h
+            · exact ⟨by simp, hg.1, urls, rfl⟩
+      · rw [if_neg hg] at h
+        simp at h
+
+/-- Credentials of a mode are only selected when that mode is configured. -/
+theorem register_mode {cfg : Config} {w : World} {a : AsmDoc} {cred : Cred} {probe : Bool}
+    (h : (register cfg w a).1 = .ok cred probe) :
+    (cred = .cimd → cfg.cimd = true ∧ a.cimdSupported = true) ∧ (cred = .pre → cfg.pre ≠ none) ∧
+    (cred = .dcr → cfg.dcr = true) ∧ cred ≠ .none := by
+  unfold register at h
+  split at h
+  · rename_i hc
+    simp only [Bool.and_eq_true] at hc
+    simp only [RegRes.ok.injEq] at h
+    obtain ⟨rfl, _⟩ := h
+    simp [hc]
+  · split at h
+    · rename_i pi hpre
+      split at h
+      · simp at h
+      · simp only [RegRes.ok.injEq] at h
+        obtain ⟨rfl, _⟩ := h
+        simp [hpre]
+    · split at h
+      · rename_i hg
+        simp only [Bool.and_eq_true] at hg
+        split at h
+        · simp at h
+        · split at h
+          · simp only at h
+            split at h
+            · simp only [RegRes.ok.injEq] at h
+              obtain ⟨rfl, _⟩ := h
+              simp [hg.1]
+            · simp at h
+          · simp at h
+      · simp at h
+
 theorem exchange_log {w : World} {t : Url} {cred : Cred} {probe : Bool} {e : Event}
     (h : e ∈ (exchange w t cred probe).2) : e = .token t cred ∧ ∀ n, t ≠ .bad n := by
   unfold exchange at h
